@@ -367,6 +367,28 @@ func runCase(c caseT, r *core.Result, deep bool) {
 		check("fresh-after-rejected-sibling", v1)
 		v1.Destroy()
 		r.Add("validations_fresh", 1)
+		// the same with a sibling that carries OTHER transactions (it touches other accounts and log kinds)
+		// and is refused only AFTER it has been executed and finalised (flipped version root): what that
+		// execution left behind in the node must not reach the honest block on the same parent
+		alt := "xfer-new"
+		for _, n := range c.List {
+			if n == alt {
+				alt = "call-counter"
+			}
+		}
+		if other, _, errO := w.F.Make(node.BlockSpec{Parent: w.Head, Miner: node.Deputy(0), Time: tm, Txs: w.Txs([]string{alt, "vote-c1"}), Extra: "c01-other", NoSave: true}); errO == nil {
+			v1b := w.Validator(core.ScratchDir("c01v1b"))
+			badO := node.Wire(other)
+			badO.Header.VersionRoot[3] ^= 0x10
+			sdO := node.SignConfirm(node.Deputy(0), badO.Header.Hash())
+			badO.Header.SignData = sdO[:]
+			if err := v1b.InsertQuiet(node.Wire(badO)); err == nil {
+				viol("corrupted-sibling-accepted", "another block with a flipped version root was accepted")
+			}
+			check("fresh-after-rejected-other-block", v1b)
+			v1b.Destroy()
+			r.Add("validations_fresh_after_other_block", 1)
+		}
 	}
 
 	// (4) light path: redo of the published logs on the parent state
